@@ -119,14 +119,13 @@ def eval_in_original_context(f, args, caller_fn_scope):
   # When control flow is rewritten using functions, eval should use the
   # variables found in the same block where it was called. That is equivalent
   # to the innermost function call.
-  ctx_frame = _find_originating_frame(caller_fn_scope, innermost=True)
+  if len(args) >= 2:
+    # Explicit namespaces: the builtin's own rules apply, including the use of
+    # the globals as locals when only globals are given.
+    return f(*args)
 
-  args = (
-      args[0],
-      ctx_frame.f_globals if len(args) < 2 else args[1],
-      _originating_locals(caller_fn_scope) if len(args) < 3 else args[2],
-  )
-  return f(*args)
+  ctx_frame = _find_originating_frame(caller_fn_scope, innermost=True)
+  return f(args[0], ctx_frame.f_globals, _originating_locals(caller_fn_scope))
 
 
 def super_in_original_context(f, args, caller_fn_scope):
